@@ -1,7 +1,7 @@
 """C02 - only explicitly exposed, non-private members are remotely reachable.
 
 MC    : Expose.tla (Served / Advertised as functions of the member shape and the request; OnlyExposed, AdvertisedIsServed).
-Gen   : Gen_Expose.tla enumerates every constructible member shape (570); the harness crosses them with the request kinds
+Gen   : Gen_Expose.tla enumerates every constructible member shape (1020); the harness crosses them with the request kinds
         (call, oneway, batch, oneway batch, attribute read, attribute write) and the seven name variants.
 Drive : for each shape a real class hierarchy is built and an instance registered in a real daemon; the request is written as a
         raw INVOKE message (no client-side filtering); every function of the generated classes appends to a side-effect log.
@@ -142,8 +142,15 @@ def build_target(m, i, log):
         def __init__(self):
             setattr(self, name, init_value())
         body["__init__"] = __init__
-    if m["where"] == "own":
-        Base = type("Base", (Common,), {})
+    if m["where"] in ("own", "over_exposed", "over_plain"):
+        basebody = {}
+        if m["where"] != "own":
+            # the base class has a method of the same name - an exposed one, or a plain one - which the registered class redefines
+            basefn = func("base_version", fname)
+            basebody[name] = P.expose(basefn) if m["where"] == "over_exposed" and not private else basefn
+            if m["where"] == "over_exposed" and private:
+                basefn._pyroExposed = True
+        Base = type("Base", (Common,), basebody)
         Target = type("Target", (Base,), body)
         definer, other = Target, Base
     else:
@@ -446,7 +453,7 @@ def concurrent_metadata(shapes, seed):
 
 def run(ctx):
     memnet.install()
-    ctx.rule = ("cases = constructible member shapes from Gen_Expose (570) x request kinds (6) x name variants (7), one raw INVOKE each "
+    ctx.rule = ("cases = constructible member shapes from Gen_Expose (1020) x request kinds (6) x name variants (7), one raw INVOKE each "
                 "(quick: all 'exact' requests, one third of the others by rotation); distinct_nontrivial = distinct (shape, request kind, "
                 "name variant)")
     ctx.assumptions = ["one member under test per generated class, next to an always-exposed bystander method",
@@ -454,8 +461,8 @@ def run(ctx):
                        "name-mangled members are written with their mangled name (_Target__member)"]
     tlc.mc(ctx, "Expose", cfg="MC_Expose.cfg")
     shapes = tlc.gen(ctx, "Gen_Expose", cfg="Gen_Expose.cfg")
-    if len(shapes) != 570:
-        raise util.MachineryError("expected 570 shapes, got %d" % len(shapes))
+    if len(shapes) != 1020:
+        raise util.MachineryError("expected 1020 shapes, got %d" % len(shapes))
     shapes.sort(key=lambda s: json.dumps(s["m"], sort_keys=True))
     cases = []
     n = 0
